@@ -106,6 +106,13 @@ class Check:
             self.proof["broken"].append({"file": prop_file, "log": alog[-3000:]})
             self.log("AUDIT FAILED\n" + alog[-2000:])
             return False
+        # statements are pinned (coq/<project>/Properties/PINS.json, written by bin/pin-theorems): a
+        # property theorem whose statement was edited or which disappeared breaks the proof leg
+        # until the pin is renewed on purpose, so that no statement is weakened in passing
+        changed = pinned_statement_changes(pdir, prop_file)
+        for n, why in changed:
+            self.proof["broken"].append({"theorem": n, "log": why})
+            self.log("pinned statement: %s %s" % (n, why))
         closed = 0
         for n in names:
             axs = ax.get(n)
@@ -125,7 +132,7 @@ class Check:
             sorted({a for v in ax.values() for a in v}) or "none (closed under the global context)"))
         if self.tier == "thorough":
             self.coqchk(pdir, project, prop_file)
-        return closed == len(names)
+        return closed == len(names) and not changed
 
     def coqchk(self, pdir, project, prop_file):
         mod = "DC." + prop_file[:-2].replace("/", ".")
@@ -367,6 +374,34 @@ def theorem_names(path):
             if m:
                 names.append(m.group(2))
     return names
+
+
+def theorem_statements(path):
+    """name -> sha256 of the statement text (from `Theorem name` up to `Proof.`, comments stripped,
+    white space normalised) for every property theorem of a Properties file."""
+    import hashlib
+    text = strip_comments(open(path).read())
+    out = {}
+    for m in re.finditer(r"(?:^|\n)\s*(?:Theorem|Corollary)\s+([A-Za-z0-9_']+)(.*?)\n\s*Proof\b", text, flags=re.S):
+        stmt = " ".join(m.group(2).split())
+        out[m.group(1)] = hashlib.sha256(stmt.encode()).hexdigest()[:16]
+    return out
+
+
+def pinned_statement_changes(pdir, prop_file):
+    pins_path = os.path.join(pdir, "Properties", "PINS.json")
+    try:
+        pins = json.load(open(pins_path)).get(os.path.basename(prop_file), {})
+    except (OSError, ValueError):
+        return []
+    now = theorem_statements(os.path.join(pdir, prop_file))
+    bad = []
+    for name, h in sorted(pins.items()):
+        if name not in now:
+            bad.append((name, "pinned theorem no longer present in %s" % prop_file))
+        elif now[name] != h:
+            bad.append((name, "statement differs from the pinned one (renew with bin/pin-theorems if intended)"))
+    return bad
 
 
 def strip_comments(text):
